@@ -1683,15 +1683,18 @@ func addAndResetCounts(hot, cold *histogramCounts) {
 type nativeExemplars struct {
 	sync.Mutex
 
-	// Time-to-live for exemplars, it is set to -1 if exemplars are disabled, that is NativeHistogramMaxExemplars is below 0.
+	// Time-to-live for exemplars.
 	// The ttl is used on insertion to remove an exemplar that is older than ttl, if present.
 	ttl time.Duration
+	// disabled is true if exemplars are disabled, that is NativeHistogramMaxExemplars is below 0.
+	// (Not encoded in ttl, as every negative ttl is a valid user setting.)
+	disabled bool
 
 	exemplars []*dto.Exemplar
 }
 
 func (n *nativeExemplars) isEnabled() bool {
-	return n.ttl != -1
+	return !n.disabled
 }
 
 func makeNativeExemplars(ttl time.Duration, maxCount int) nativeExemplars {
@@ -1703,13 +1706,15 @@ func makeNativeExemplars(ttl time.Duration, maxCount int) nativeExemplars {
 		maxCount = 10
 	}
 
+	disabled := false
 	if maxCount < 0 {
 		maxCount = 0
-		ttl = -1
+		disabled = true
 	}
 
 	return nativeExemplars{
 		ttl:       ttl,
+		disabled:  disabled,
 		exemplars: make([]*dto.Exemplar, 0, maxCount),
 	}
 }
